@@ -4,6 +4,7 @@ import os
 
 from facts import AnalysisBroken, VERIF
 import contracts
+import keyrule
 import wire
 
 LEVEL = 'other'
@@ -84,6 +85,22 @@ def run(ck, F):
     gone = [k for k in table if k not in cur]
     if gone:
         ck.note(f'{len(gone)} table entries have no subject in the current tree (skipped): ' + ', '.join(short_id(k) for k in gone[:6]))
+    # a unified factory may hand back an element that an earlier request built: it reports this request's operands
+    # only if the comparator that found it equates exactly the requests with the same operands
+    K = keyrule.KeyChecker(ck, F, 'C02')
+    for r, text in ((K.R_diag, 'found-element'), (K.R_lex, 'found-element'), (K.R_atom, 'found-element')):
+        ck.rules[r]['desc'] = ('(a node returned from a table instead of being built reports the operands of this request '
+                               'only if the table finds equal what is equal) ' + ck.rules[r]['desc'])
+    nuni = 0
+    for fid in sorted(cur):
+        if any((p.get('origin') or '').startswith('unified') for p in cur[fid]) and F.fn[fid].get('parent') in contracts.FACTORY_CLASSES:
+            K.factory(F.fn[fid])
+            nuni += 1
+    K.finish_cover()
+    for r in (K.R_diag, K.R_lex):
+        ck.rules[r]['floor'] = 30
+    ck.rules[K.R_atom]['floor'] = 2
+    ck.extra['unified_factories'] = nuni
     ck.extra['factories'] = len(cur)
     ck.samples.append({'contract_example': {'factory': 'expr_factory::make_conditional',
                                             'accessors': next((p['accessors'] for k, v in cur.items() if 'make_conditional' in k for p in v if 'accessors' in p), None)}})
